@@ -295,6 +295,20 @@ func TestVerif_C19_UseLimit(t *testing.T) {
 				}
 				time.Sleep(2 * time.Millisecond)
 			}
+			if entry {
+				// Nothing happened within the wait. Decide whether anything is still going to happen: the exhausted
+				// token is revoked through its lease, which the last use moves into the past. If the entry is still
+				// stored, its lease still expires far in the future and no revocation job is queued, nobody will ever
+				// revoke it (until its own TTL lapses): that is not slowness but the statement's "after its last use
+				// the token is revoked together with the leases issued under it" broken.
+				te, lerr := tc.c.tokenStore.lookupInternal(tc.ctx, tok, false, true)
+				if lerr == nil && te != nil && tc.c.expiration.jobManager.GetPendingJobCount() == 0 {
+					le, ferr := tc.c.expiration.FetchLeaseTimesByToken(tc.ctx, te)
+					if ferr == nil && le != nil && le.ExpireTime.After(time.Now().Add(5*time.Minute)) {
+						rec.Violation(rt, "exhausted-token-never-revoked", describe(), "all %d uses of the token are spent (it is refused), but 10s later its entry is still stored, its lease expires only at %v, no revocation is queued, and the secrets %v leased under it are not revoked", n, le.ExpireTime.Format(time.RFC3339), out)
+					}
+				}
+			}
 			if len(out) > 0 || entry {
 				rec.Note("inconclusive: after 10s secrets %v not revoked / token entry present=%v", out, entry)
 				hub.mu.Lock()
